@@ -721,6 +721,17 @@ func classify(c Case, info *genInfo) {
 		ev.Label("module: repo internal/examples")
 	} else {
 		ev.Label(fmt.Sprintf("module: generated, %d packages", n))
+		if len(c.TwoFfi) > 0 {
+			ev.Label("module has a package reaching two FFIs")
+		}
+		if info != nil {
+			for _, e := range info.hasErr {
+				if e {
+					ev.Label("module has a package with conversion errors")
+					break
+				}
+			}
+		}
 	}
 	shape := c
 	shape.Invs = nil
